@@ -56,7 +56,9 @@ SPEC = {
             "update in six with a storage failure at its 1st-4th write (then often retried), one in ten from the "
             "malformed stream (empty ids, bad role, count <= 0, end <= start, mismatching bundle group), every eighth "
             "history with storage corruption (rule under a foreign key, junk value, invalid stored rule, deleted key) "
-            "followed by restart; one step in ten is a pair of updates overlapping in time (`park u1`: u1 is held inside its "
+            "followed by restart (half of them first with a storage failure at the k-th write of Initialize's key repair, "
+            "incl. served rules whose only stored copy was moved under a foreign key); extreme rule / group indexes "
+            "(Min/MaxInt64) in one rule of eight; one step in ten is a pair of updates overlapping in time (`park u1`: u1 is held inside its "
             "first storage write by the kv gate; `during u2`: u2 is issued meanwhile and must be observed blocked - probed "
             "with TryLock on the manager's mutex, then really started; `release`: both finish, all observables are "
             "reported); per stream two bulk histories (15 in the thorough tier) that bring the number of persisted "
